@@ -109,7 +109,49 @@ func init() {
 				e.close()
 			}
 		}
-		c.close([]string{"c09:probe-before-any-callback", "c09:probe-after-callback-1", "c09:max-age"})
+		// a session that is due for refresh but CANNOT be refreshed (no refresh token; the provider answers "not refreshed")
+		// keeps its original creation time: it is served after re-validation, but never re-issued with a new lifetime
+		for _, redis := range []bool{false, true} {
+			e, err := newEnv(c, proxyCfg{Redis: redis, CookieExpire: time.Hour, CookieRefresh: time.Minute, InjectRequest: defaultInject()})
+			if err != nil {
+				c.violation("HARNESS", "env: "+err.Error(), nil)
+				continue
+			}
+			for _, age := range []time.Duration{10 * time.Minute, 59 * time.Minute} {
+				s := e.sessionFor(u, age)
+				s.RefreshToken = ""
+				ck := e.issueSessionCookie(s)
+				var ttl0 time.Duration
+				if redis {
+					for _, k := range e.mr.Keys() {
+						if !strings.HasSuffix(k, ".lock") {
+							ttl0 = e.mr.TTL(k)
+						}
+					}
+				}
+				r := e.do(reqSpec{Target: "/app/x", Cookie: ck})
+				c.casen(fmt.Sprintf("c09e|nort|%v|%v", redis, age), fmt.Sprint(r.Status))
+				c.count("c09:not-refreshable")
+				in := map[string]interface{}{"redis": redis, "session_age": age.String(), "cookie_expire": "1h", "cookie_refresh": "1m", "status": r.Status}
+				if len(r.Hits) == 0 {
+					c.violation("HARNESS", "a re-validated session without refresh token was not served", in)
+				}
+				if hasSessionSet(r, e.opts.Cookie.Name) {
+					c.violation("C09", "a session that could not be refreshed was re-issued with a fresh creation time: its lifetime no longer ends at cookie-expire", in)
+				}
+				if redis {
+					for _, k := range e.mr.Keys() {
+						if ttl := e.mr.TTL(k); !strings.HasSuffix(k, ".lock") && ttl > ttl0+2*time.Second {
+							in["ttl_before"], in["ttl_after"] = ttl0.String(), ttl.String()
+							c.violation("C09", "the server-side entry of a session that could not be refreshed got a longer lifetime", in)
+						}
+					}
+					e.mr.FlushAll()
+				}
+			}
+			e.close()
+		}
+		c.close([]string{"c09:probe-before-any-callback", "c09:probe-after-callback-1", "c09:max-age", "c09:not-refreshable"})
 	})
 
 	registerSuite("storeleak", func(c *suiteCtx) {
